@@ -62,6 +62,8 @@ structure Eng where
   primary : Bool := false
   remoteHalt : Bool := false
   remoteOK : Bool := true        -- would the primary accept a transaction forwarded now (halt lock held there)
+  backup : Bool := false         -- a backup client is configured
+  hwm : Nat := 0                 -- high-water mark acknowledged by the backup service (volatile)
   hasDB : Bool := false
   pageSize : Nat := 0
   pageN : Nat := 0
@@ -510,10 +512,10 @@ def bgPages (s : Eng) (b : BgSt) : Option (List ByteArray) :=
     | none => let off := i * b.capPageSize
               if dbf.size < off + b.capPageSize then none else some (dbf.extract off (off + b.capPageSize))
 
-/-- `EnforceRetention(minTime)` without a backup client: every file older than the cut-off is
-    removed, except the newest file of the listing -/
+/-- `EnforceRetention(minTime)`: every file older than the cut-off is removed, except the newest
+    file of the listing and, with a backup client, every file at or above the high-water mark -/
 def enforceRetention (s : Eng) : Eng :=
   let n := s.ltx.length
-  { s with ltx := (s.ltx.zipIdx.filter fun p => !(p.1.old && p.2 + 1 ≠ n)).map (·.1) }
+  { s with ltx := (s.ltx.zipIdx.filter fun p => !(p.1.old && p.2 + 1 ≠ n && (!s.backup || p.1.maxTxid < s.hwm))).map (·.1) }
 
 end LiteFSVerif.Engine
